@@ -27,6 +27,7 @@ extern "C" void jv_rand_cb(void* buf, size_t n) {
     OutOfLib out;      // simulator code may allocate; the environment trap only concerns the library
     sched_callback_yield();
     if (!tl_stream) abort();
+    if (tl_stream->watch_lo && (const uint8_t*) buf >= tl_stream->watch_lo && (const uint8_t*) buf < tl_stream->watch_hi) tl_stream->watch_hits++;
     tl_stream->serve(buf, n);
 }
 extern "C" void jv_hash_cb(void* out, size_t outlen, const void* in, size_t inlen) {
